@@ -15,6 +15,7 @@ RULE = ("for each diagram (standard line/bar plot, obsfcst, qq, scatter, cond, f
         "reference model; one series per input in command-line order; for binned diagrams every valid case must fall in "
         "exactly one bin (sum of bin counts = number of valid cases). signature = (diagram, option set, dataset kind, "
         "#inputs); non-trivial = >= 2 distinct ordinates read back per series.")
+RULE += " " + 'Diagrams qq-q (quantile curves), timeseries-ens (one curve per member), rank view with a score undefined for one input only; shards rotate the process time zone.'
 ASSUMPTIONS = ["figures are checked through matplotlib's object model (Agg backend), not pixels",
                "decorations (confidence bands, reference lines, labels) are not part of the property"]
 REQUIRED_COUNTERS = ["figures", "series_compared", "points_compared", "bin_conservation_checks"]
